@@ -58,6 +58,8 @@ KINDS = [
     "drop_table",
     "create_view",
     "describe_table",
+    "drop_table_named_like_the_schema",
+    "drop_view_named_like_the_schema",
 ]
 
 
@@ -65,9 +67,14 @@ def validate_contracts():
     return validate_engine()
 
 
-def _stmt(kind: str, db, sc):
+def _stmt(kind: str, db, sc, current_schema=None):
     """SQL text, and what the statement refers to: (needs_db, needs_schema, object (db, schema, name) with None = from session)."""
     q = (f"{db}." if db else "") + (f"{sc}." if sc else "")
+    if kind in ("drop_table_named_like_the_schema", "drop_view_named_like_the_schema"):
+        # an OBJECT that happens to carry the name of the session's current schema (it does not exist: IF EXISTS) - not the schema
+        name = (current_schema or "s1").lower()
+        what = "table" if "table" in kind else "view"
+        return f"drop {what} if exists {q}{name}", (db is None, sc is None, name.upper())
     if kind == "use_database":
         return f"use database {db}", (False, False, None)
     if kind == "use_schema":
@@ -122,8 +129,8 @@ def _setup(pi: int):
 
 def _step(eng, conn, other, kind: str, db, sc) -> tuple:
     """Run one statement; return (ok, why)."""
-    sql, (needs_db, needs_schema, obj) = _stmt(kind, db, sc)
     d0, s0, ds0, ss0 = before = _fields(conn)
+    sql, (needs_db, needs_schema, obj) = _stmt(kind, db, sc, s0)
     setting0 = conn._duck_conn.setting
     snap0 = eng.user_snapshot()
     obefore = (_fields(other), other._duck_conn.setting)
@@ -191,6 +198,9 @@ def _step(eng, conn, other, kind: str, db, sc) -> tuple:
         want = (d0, None, ds0, False) if dropped_current else before
         if _fields(conn) != want:
             return False, f"drop schema: session {_fields(conn)} expected {want}"
+    elif kind in ("drop_table_named_like_the_schema", "drop_view_named_like_the_schema"):
+        if _fields(conn) != before or duck.setting != setting0 or eng.user_snapshot() != snap0:
+            return False, "dropping an object named like the current schema changed the session context or the catalog"
     else:
         if kind == "describe_table":
             resolved = duck.last_described
@@ -238,21 +248,21 @@ def _one_step(pi: int, ki: int, di: int, si: int) -> bool:
         "fakesnow.conn.FakeSnowflakeConnection.__init__",
         "fakesnow.instance.FakeSnow.connect",
     ],
-    bounds="8 pre-state classes (every combination of reported / set database and schema that connect() can establish) x 12 statement kinds "
-    "(USE DATABASE, USE SCHEMA, CREATE/DROP SCHEMA, CREATE TABLE/VIEW, SELECT, INSERT, UPDATE, DELETE, DROP TABLE, DESCRIBE TABLE) x database "
+    bounds="8 pre-state classes (every combination of reported / set database and schema that connect() can establish) x 14 statement kinds "
+    "(USE DATABASE, USE SCHEMA, CREATE/DROP SCHEMA, CREATE TABLE/VIEW, SELECT, INSERT, UPDATE, DELETE, DROP TABLE, DESCRIBE TABLE, DROP TABLE / VIEW IF EXISTS of an object named like the current schema) x database "
     "qualifier in {none, db1, DB2, nodb} x schema qualifier in {none, s1, S3, nos, s2}; a second live session on db2.s3; one step",
     timeout=(400, 900),
     stubs=["K2 vf.duckstub.Engine"],
     carve="C03-use-schema-without-database",
-    shards=(12, 12),
+    shards=(14, 14),
 )
 def one_step(pi: int, ki: int, di: int, si: int) -> bool:
     """
-    pre: 0 <= pi < 8 and 0 <= ki < 12 and 0 <= di < 4 and 0 <= si < 5 and (SHARD < 0 or ki == SHARD)
+    pre: 0 <= pi < 8 and 0 <= ki < 14 and 0 <= di < 4 and 0 <= si < 5 and (SHARD < 0 or ki == SHARD)
     post: _
     """
     P = fast.pick
-    return done(fast.native(_one_step, P(pi, 8), P(ki, 12), P(di, 4), P(si, 5)))
+    return done(fast.native(_one_step, P(pi, 8), P(ki, 14), P(di, 4), P(si, 5)))
 
 
 def _two_steps(pi: int, k1: int, d1: int, s1: int, k2: int, d2: int, s2: int) -> bool:
@@ -321,8 +331,8 @@ def _real_one_step(a: dict):
     problems = []
     for k, d, s in steps:
         kind, db, sc = KINDS[k], DBQ[d], SCQ[s]
-        sql, (needs_db, needs_schema, obj) = _stmt(kind, db, sc)
         before = _fields(conn)
+        sql, (needs_db, needs_schema, obj) = _stmt(kind, db, sc, before[1])
         cur = conn.cursor()
         err = None
         try:
